@@ -3,6 +3,7 @@ package bt
 import (
 	"bytes"
 	"sort"
+	"strings"
 )
 
 // Reference evaluator for row filters, written from the comments in
@@ -155,12 +156,37 @@ func (st *evalState) eval(f *Filter, in []Cell, ambiguous bool) []Cell {
 			st.zeroCount = true
 		}
 		n := int(f.N)
+		// After an interleave a column can hold several cells with the same timestamp (one per branch) that
+		// differ in value or labels; their relative order is not defined, so a cut that separates them is not either.
+		cutsDuplicates := func(pos int) bool {
+			if pos <= 0 || pos >= len(in) {
+				return false
+			}
+			a, b := &in[pos-1], &in[pos]
+			if a.Fam != b.Fam || a.Qual != b.Qual || a.TS != b.TS {
+				return false
+			}
+			// the whole run of equal (family, qualifier, timestamp) cells must be identical for the cut to be defined
+			lo, hi := pos-1, pos
+			for lo > 0 && in[lo-1].Fam == a.Fam && in[lo-1].Qual == a.Qual && in[lo-1].TS == a.TS {
+				lo--
+			}
+			for hi+1 < len(in) && in[hi+1].Fam == a.Fam && in[hi+1].Qual == a.Qual && in[hi+1].TS == a.TS {
+				hi++
+			}
+			for i := lo + 1; i <= hi; i++ {
+				if in[i].Val != in[lo].Val || strings.Join(in[i].Labels, ",") != strings.Join(in[lo].Labels, ",") {
+					return true
+				}
+			}
+			return false
+		}
 		switch f.K {
 		case "rowlimit":
 			if n >= len(in) {
 				return in
 			}
-			if ambiguous && famCount(in) > 1 {
+			if (ambiguous && famCount(in) > 1) || cutsDuplicates(n) {
 				st.unspec = true
 			}
 			return in[:n]
@@ -168,7 +194,7 @@ func (st *evalState) eval(f *Filter, in []Cell, ambiguous bool) []Cell {
 			if n >= len(in) {
 				return nil
 			}
-			if n > 0 && ambiguous && famCount(in) > 1 {
+			if n > 0 && ((ambiguous && famCount(in) > 1) || cutsDuplicates(n)) {
 				st.unspec = true
 			}
 			return in[n:]
@@ -183,6 +209,8 @@ func (st *evalState) eval(f *Filter, in []Cell, ambiguous bool) []Cell {
 				}
 				if cnt <= n {
 					out = append(out, in[i])
+				} else if cnt == n+1 && cutsDuplicates(i) {
+					st.unspec = true
 				}
 			}
 			return out
